@@ -9,7 +9,7 @@
    (tools/props/C07.py), not proved: see DESIGN.md. *)
 From Coq Require Import NArith List Bool.
 From V Require Import Base.Res Base.Word Spec.Tree Spec.Blake3 Model.Portable Model.Platform Model.RsChunk Model.RsWide
-  Model.RsXof Proofs.C01P Proofs.XofP Proofs.C04P.
+  Model.RsXof Model.RsHasher Model.CHasher Proofs.C01P Proofs.XofP Proofs.C04P Proofs.IoP Proofs.C02P Proofs.CHasherP4.
 Import ListNotations.
 Open Scope N_scope.
 
@@ -31,11 +31,38 @@ Theorem C07_fill_footprint : forall p, PlatformOK p -> forall r o pos n,
   exists r' bs, reader_fill p r n = Ok (r', bs) /\ length bs = N.to_nat n.
 Proof. exact reader_fill_footprint. Qed.
 
+(* the incremental Rust hasher: for ANY sequence of updates (below 2^64 bytes in total) no slice index, array_ref,
+   ArrayVec::push (capacity 55 of the CV stack) or checked arithmetic of update/finalize fails *)
+Theorem C07_hasher_indices_in_bounds : forall p, PlatformOK p -> forall K F, length K = 8%nat -> forall pieces,
+  len (concat pieces) < 2 ^ 64 ->
+  exists h out, updates p (new_internal K F) pieces = Ok h /\ hasher_finalize p h = Ok out /\ length out = 32%nat.
+Proof.
+  intros p POK K F HK pieces Hl. destruct (hasher_refines p POK K F HK pieces Hl) as (h & H1 & _ & _ & H4).
+  exists h. eexists. split; [exact H1|]. split; [exact H4|]. apply stream_length.
+Qed.
+
+(* the C glue (c/blake3.c): for ANY sequence of blake3_hasher_update calls and any finalize_seek the model never
+   reads or writes outside cv_stack[55], the chunk buffer, cv_array or the output buffer (panic codes 300..328 of
+   Model/CHasher.v) and writes exactly out_len bytes *)
+Theorem C07_c_glue_in_bounds : forall p, PlatformOK p -> forall K F, length K = 8%nat ->
+  forall mem pieces seek out_len,
+  length mem = 55%nat -> len (concat pieces) < 2 ^ 64 -> seek + out_len <= 2 ^ 64 - 1 ->
+  exists h bs,
+    fold_left (fun r x => h <- r ;; c_hasher_update p h x) pieces (Ok (c_hasher_init_base mem K F)) = Ok h /\
+    c_hasher_finalize_seek p h seek out_len = Ok bs /\ length bs = N.to_nat out_len.
+Proof.
+  intros p POK K F HK mem pieces seek n Hm Hl Hs.
+  destruct (c_update_refines p POK K F HK mem pieces seek n Hm Hl Hs) as (h & H1 & H2).
+  exists h. eexists. split; [exact H1|]. split; [exact H2|]. apply stream_length.
+Qed.
+
 Example C07_nonvacuous :
   exists outs, hash_many [repeat 1 64; repeat 2 64; repeat 3 64] Spec.Compress.IV 0 true 0 1 2 3 = Ok outs /\ length outs = 3%nat.
 Proof. vm_compute. eexists. split; reflexivity. Qed.
 
 Print Assumptions C07_one_shot_indices_in_bounds.
 Print Assumptions C07_hash_many_footprint.
+Print Assumptions C07_hasher_indices_in_bounds.
+Print Assumptions C07_c_glue_in_bounds.
 Print Assumptions C07_xof_many_footprint.
 Print Assumptions C07_fill_footprint.
